@@ -388,7 +388,8 @@ zif_open(const char *file)
 		return NULL;
 	} else if (fstat(fd, &st) < 0) {
 		goto cout;
-	} else if (st.st_size <= 20) {
+	} else if (st.st_size < (off_t)sizeof(struct zih_s)) {
+		/* not even a header */
 		goto cout;
 	}
 
@@ -411,14 +412,22 @@ zif_open(const char *file)
 		tmp.nlp = RDU32(hdr + offsetof(struct zih_s, tzh_leapcnt));
 		tmp.ntr = RDU32(hdr + offsetof(struct zih_s, tzh_timecnt));
 		tmp.nty = RDU32(hdr + offsetof(struct zih_s, tzh_typecnt));
-		hds += sizeof(struct zih_s);
-		hds += tmp.ntr * 4U;
-		hds += tmp.ntr;
-		hds += tmp.nty * (4U + 1U + 1U);
-		hds += RDU32(hdr + offsetof(struct zih_s, tzh_charcnt));
-		hds += tmp.nlp * (4U + 4U);
-		hds += RDU32(hdr + offsetof(struct zih_s, tzh_ttisstdcnt));
-		hds += RDU32(hdr + offsetof(struct zih_s, tzh_ttisgmtcnt));
+		with (uint64_t skip = sizeof(struct zih_s)) {
+			skip += (uint64_t)tmp.ntr * 4U;
+			skip += tmp.ntr;
+			skip += (uint64_t)tmp.nty * (4U + 1U + 1U);
+			skip += RDU32(hdr + offsetof(struct zih_s, tzh_charcnt));
+			skip += (uint64_t)tmp.nlp * (4U + 4U);
+			skip += RDU32(hdr + offsetof(struct zih_s, tzh_ttisstdcnt));
+			skip += RDU32(hdr + offsetof(struct zih_s, tzh_ttisgmtcnt));
+
+			/* the second header must lie within the file */
+			if (UNLIKELY(skip > (uint64_t)st.st_size -
+				     sizeof(struct zih_s))) {
+				goto unmp;
+			}
+			hds += skip;
+		}
 
 		if (UNLIKELY(memcmp(hds, TZ_MAGIC, 4U))) {
 			goto unmp;
@@ -431,6 +440,19 @@ zif_open(const char *file)
 		break;
 	default:
 		goto unmp;
+	}
+	/* transitions, their types and the offsets must lie within the file,
+	 * and there must be an offset to refer to */
+	with (uint64_t need = (uint64_t)(hdr - map) + sizeof(struct zih_s)) {
+		const unsigned int stmpz =
+			hdr[offsetof(struct zih_s, tzh_version)] ? 8U : 4U;
+
+		need += (uint64_t)tmp.ntr * stmpz;
+		need += tmp.ntr;
+		need += (uint64_t)tmp.nty * (4U + 1U + 1U);
+		if (UNLIKELY(!tmp.nty || need > (uint64_t)st.st_size)) {
+			goto unmp;
+		}
 	}
 	/* alloc space, don't read leaps just transitions and types */
 	res = malloc(sizeof(*res) +
@@ -480,6 +502,15 @@ zif_open(const char *file)
 	/* clean up */
 	munmap(map, st.st_size);
 	close(fd);
+	/* every transition must refer to one of the offsets
+	 * and be later than its predecessor, lookups rely on that */
+	for (size_t i = 0U; i < res->ntr; i++) {
+		if (UNLIKELY(res->tys[i] >= res->nty) ||
+		    UNLIKELY(i && res->trs[i] <= res->trs[i - 1U])) {
+			free(res);
+			return NULL;
+		}
+	}
 	/* compactify, we disallow transitions to the same type */
 	real_ntr += res->ntr > 0U;
 	for (size_t i = 1U; i < res->ntr; i++) {
